@@ -44,7 +44,7 @@ RULE = ("allocsafe4: addmul_ui/submul_ui/addmul/submul with every sign combinati
         "aorsmul_i.c:169, products with a zero top limb, one-limb multiplier in either position, all five alias modes, destination allocation "
         "exact / need-1 / need / generous")
 
-PINS = [("mpz/aorsmul_i.c", None), ("mpz/aorsmul.c", None), ("mpz/mul.c", None), ("mpz/tdiv_q.c", None), ("mpz/tdiv_r.c", None), ("mpf/urandomb.c", None), ("mpz/sqrt.c", None), ("mpz/tdiv_qr.c", None), ("mpz/sqrtrem.c", None)]
+PINS = [("mpz/aorsmul_i.c", None), ("mpz/aorsmul.c", None), ("mpz/mul.c", None), ("mpz/tdiv_q.c", None), ("mpz/tdiv_r.c", None), ("mpf/urandomb.c", None), ("mpz/sqrt.c", None), ("mpz/tdiv_qr.c", None), ("mpz/sqrtrem.c", None), ("mpz/set_d.c", None)]
 
 def nl(x): return (abs(x).bit_length() + 63) // 64
 
@@ -210,6 +210,16 @@ def gen_divqr(rng):
     n = int(line[5], 16); d = int(line[7], 16)
     return "as4_tdiv_qr %x %s %s %s %s %s %s" % (m, line[2], line[3], obj(rng, w2, max(nl(d), 1)), line[4], line[5], "%s %s" % (line[6], line[7]))
 
+def gen_set_d(rng):
+    """mpz_set_d: |d| < 1 (rn = 0), one limb, two limbs, exponents at limb boundaries (zero fill of rn - 2 limbs), denormals, NaN, Inf"""
+    c = rng.randrange(8)
+    e = rng.choice([0, 1, 1022, 1023, 1023 + 52, 1023 + 63, 1023 + 64, 1023 + 65, 1023 + 127, 1023 + 128, 1023 + 129, 1023 + 64 * rng.randrange(1, 15) + rng.randrange(-1, 2), 2046, 2047, rng.randrange(2048)])
+    f = rng.choice([0, 1, (1 << 52) - 1, 1 << 51, rng.getrandbits(52)])
+    b = (rng.getrandbits(1) << 63) | (e << 52) | f
+    need = max((e - 1023) // 64 + 1, 1) if e >= 1023 else 1
+    w = sgnd(rng, special(rng, rng.randrange(1, 4)))
+    return "as4_set_d %s %x" % (obj(rng, w, need), b)
+
 def gen_ops(rng, tier, ctx=None):
     n = 1000 if tier == "quick" else 12000
     for _ in range(n):
@@ -227,6 +237,7 @@ def gen_ops(rng, tier, ctx=None):
             w2 = sgnd(rng, special(rng, rng.randrange(1, 4)))
             yield "as4_sqrtrem %x %s %s %s %s %s" % (rng.randrange(3), l[2], l[3], obj(rng, w2, max(nl(int(l[5], 16)), 1)), l[4], l[5])
         yield gen_divqr(rng)
+        if _ % 2 == 1: yield gen_set_d(rng)
 
 def nontrivial(line):
     return line if line.startswith("as4_") else None
